@@ -9,7 +9,7 @@ PROP = {
  "emptied table": "C05", "transforms ignore": "C13", "nonzero() does not": "C05", "None metadata functions": "C09",
  "with replacement tolerates": "C12", "all-zero table survives": "C02", "any JSON serialisation": "C14",
  "numpy booleans": "C02", "min() and max()": "C19", "metadata_to_dataframe": "C19", "duplicated row or column": "C15",
- "version or metadata error": "C15", "empty or duplicated IDs": "C15", "element types and index ranges": "C15",
+ "version or metadata error": "C15", "empty or duplicated IDs": "C15", "element types and index ranges": "C15", "escaped quotes and brackets": "C14",
 }
 def sh(c): return subprocess.run(c, shell=True, stdout=subprocess.PIPE, stderr=subprocess.STDOUT, text=True).stdout
 log = sh("git -C /repo log --reverse --format='%h|%s' ").strip().split("\n")
@@ -27,7 +27,8 @@ for ln in log:
                         "what_failed": body})
     d = os.path.join(ROOT, "seeded", "REV_" + sha)
     os.makedirs(d, exist_ok=True)
-    open(os.path.join(d, "patch.diff"), "w").write(sh("git -C /repo diff %s %s^" % (sha, sha)))
+    if not os.path.exists(os.path.join(d, "patch.diff")):      # an existing patch may have been rebased by hand
+        open(os.path.join(d, "patch.diff"), "w").write(sh("git -C /repo diff %s %s^" % (sha, sha)))
     json.dump({"id": "REV_" + sha, "property": prop, "summary": "reverse of fix commit %s (%s): re-introduces the defect" % (sha, subj),
                "needs": body, "kind": "reverse-of-fix"}, open(os.path.join(d, "meta.json"), "w"), indent=1)
     ok = sh("git -C /repo apply --check %s 2>&1" % os.path.join(d, "patch.diff"))
